@@ -10,6 +10,26 @@ pub fn replay_sampler2(id: &str, fl: &str, a: &[u64], words: &[u64]) -> Option<(
             Some((x.is_finite(), format!("StandardNormal.sample(words {:?}) = {:?}", words, x))) }
         "exp1" => { let mut rng = ScriptRng::new(words, 0x5eed); let x: f64 = rd::Exp1.sample(&mut rng);
             Some((x.is_finite() && x >= 0.0, format!("Exp1.sample(words {:?}) = {:?}", words, x))) }
+        "normal_from_zscore" if a.len() >= 3 => {
+            let (m, sd, z) = (f32::from_bits(a[0] as u32), f32::from_bits(a[1] as u32), f32::from_bits(a[2] as u32));
+            let n = rd::Normal::<f32>::new(m, sd).ok()?; let got = n.from_zscore(z); let want = m + sd * z;
+            Some((got == want || (got.is_nan() && want.is_nan()), format!("Normal({:?}, {:?}).from_zscore({:?}) = {:?}, mean + std_dev*z = {:?}", m, sd, z, got, want))) }
+        "lognormal_from_zscore" if a.len() >= 3 => {
+            let (m, sd, z) = (f32::from_bits(a[0] as u32), f32::from_bits(a[1] as u32), f32::from_bits(a[2] as u32));
+            let d = rd::LogNormal::<f32>::new(m, sd).ok()?; let got = d.from_zscore(z); let want = <f32 as rd::num_traits::Float>::exp(m + sd * z);
+            Some((got == want || (got.is_nan() && want.is_nan()), format!("LogNormal({:?}, {:?}).from_zscore({:?}) = {:?}, exp(mu + sigma*z) = {:?}", m, sd, z, got, want))) }
+        "cauchy_affine" | "gumbel_affine" | "frechet_affine_shape2" | "frechet_affine_shape075" if a.len() >= 2 && !words.is_empty() => {
+            let (l, s) = (f32::from_bits(a[0] as u32), f32::from_bits(a[1] as u32));
+            let (mut r1, mut r2) = (ScriptRng::new(&words[..1], 1), ScriptRng::new(&words[..1], 1));
+            let (xa, xb): (f32, f32) = match id {
+                "cauchy_affine" => (rd::Cauchy::<f32>::new(l, s).ok()?.sample(&mut r1), rd::Cauchy::<f32>::new(0.0, 1.0).ok()?.sample(&mut r2)),
+                "gumbel_affine" => (rd::Gumbel::<f32>::new(l, s).ok()?.sample(&mut r1), rd::Gumbel::<f32>::new(0.0, 1.0).ok()?.sample(&mut r2)),
+                "frechet_affine_shape2" => (rd::Frechet::<f32>::new(l, s, 2.0).ok()?.sample(&mut r1), rd::Frechet::<f32>::new(0.0, 1.0, 2.0).ok()?.sample(&mut r2)),
+                _ => (rd::Frechet::<f32>::new(l, s, 0.75).ok()?.sample(&mut r1), rd::Frechet::<f32>::new(0.0, 1.0, 0.75).ok()?.sample(&mut r2)),
+            };
+            let want = l + s * xb;
+            Some(((xa == want || (xa.is_nan() && want.is_nan())) && r1.drawn == r2.drawn,
+                  format!("{}: sample(loc={:?}, scale={:?}) = {:?}; loc + scale * sample(0,1) = {:?} (standard draw {:?}); words drawn {} vs {}", id, l, s, xa, want, xb, r1.drawn, r2.drawn))) }
         "normal_tail_pos" | "normal_tail_neg" => {
             // first word fixed by the unit (layer 0, |u| extreme), the decoded words are the tail words
             let neg = id.ends_with("neg");
